@@ -188,6 +188,8 @@ def field_value(draw, cd: ClassDesc, f: FieldDesc, profile: Profile, depth: int)
     if f.kind == "struct":
         if f.nullable and draw(st.integers(0, 2)) == 0:
             return None
+        if draw(st.integers(0, 7)) == 0:
+            return defaults_tree(f.struct)  # a present struct whose every field has its default / zero value
         return draw(tree_strategy(f.struct, profile, depth + 1))
     nullable = f.nullable or legacy_string
     if nullable and f.kind != "uuid" and draw(st.integers(0, 2)) == 0:
@@ -221,6 +223,20 @@ def tree_strategy(draw, cd: ClassDesc, profile: Profile, depth: int = 0) -> dict
             )
         )
         tree[UNKNOWN] = [(t, draw(st.binary(max_size=40))) for t in sorted(tags)]
+    return tree
+
+
+def defaults_tree(cd: ClassDesc) -> dict:
+    """Tree in which every field carries its explicit default (or the zero value), tagged fields absent."""
+    from .refcodec import _field_from_py, zero_tree
+
+    tree = zero_tree(cd)
+    for f in cd.fields:
+        if f.tag is None and f.has_default:
+            try:
+                tree[f.name] = _field_from_py(f, f.default)
+            except Exception:
+                pass
     return tree
 
 
